@@ -165,6 +165,38 @@ def job(payload):
             stacks, ts = tagged_inputs(rng, n, depth, g) if n else ([], [])
             prog = g.program(ts)
             cases.append((prog, stacks))
+    elif kind == "focus":
+        # one word applied to a STREAM of operand tuples in which an operand often comes "the same again" or changes by little:
+        # regular expressions that compile and that cannot be compiled (each stack gets its own verdict and its own diagnostic),
+        # needles and haystacks, operands of a wrong type in between
+        from vf.zmodel import BAD_ERE
+        S = lambda b: ("str", [b])
+        pats = sorted(BAD_ERE) + [b"a", b"a.*c", b"", b"z", b"bc", b"abc", b"b"]
+        hays = [b"abc", b"a(", b"", b"xyz", b"[b", b"bc"]
+        cases = []
+        for i in range(count):
+            n = rng.randint(3, 6)
+            stream = []
+            for j in range(n):
+                if stream and rng.random() < 0.45:
+                    stream.append(stream[-1])
+                elif rng.random() < 0.1:
+                    stream.append(("int", rng.randint(0, 3), "dec"))       # not a string: a diagnostic, nothing yielded, the stream goes on
+                else:
+                    stream.append(S(rng.choice(pats)))
+            stacks = [[S(("#%d" % (j + 1)).encode()), v] for j, v in enumerate(stream)]
+            hay = S(rng.choice(hays))
+            k = rng.random()
+            if k < 0.3:
+                body = ("cat", [hay, ("read", "P"), ("word", rng.choice(["?match", "!match"]))])
+            elif k < 0.6:
+                body = ("infix", hay, rng.choice(["=~", "!~"]), ("read", "P"))
+            elif k < 0.8:
+                # the pattern is fixed, the subject varies
+                body = ("cat", [("read", "P"), S(rng.choice(pats)), ("word", rng.choice(["?match", "!match"]))])
+            else:
+                body = ("cat", [hay, ("read", "P"), ("word", rng.choice(["?find", "!find", "?starts", "?ends"]))])
+            cases.append((("paren", ("P",), body), stacks))
     else:
         # exhaustive: programs are passed in; wrapper = three integer inputs
         cases = []
@@ -228,6 +260,8 @@ def run(chk):
     per = 250
     for i in range(nrand // per):
         jobs.append(("random", chk.seed * 1000003 + i, per, {"maxdepth": 4 if i % 3 else 5}))
+    for i in range(4 if quick else 80):
+        jobs.append(("focus", chk.seed * 7368787 + i, 120, {}))
     Z = zenum.enum(4 if quick else 5, full=True)
     progs = [p for k in sorted(Z) for p in Z[k]]
     if not quick and len(progs) > 80000:
